@@ -106,3 +106,6 @@ func VerifC14SignatureMatchesRRset(sig *dns.RRSIG, set []dns.RR) bool {
 func VerifC14VerifyOneSig(keys map[uint16][]*dns.DNSKEY, set []dns.RR, sig *dns.RRSIG) error {
 	return verifyOneSig(keys, set, sig)
 }
+
+// VerifC14CanonicalizeRdataNames exposes canonicalizeRdataNames.
+func VerifC14CanonicalizeRdataNames(r dns.RR) { canonicalizeRdataNames(r) }
